@@ -430,6 +430,35 @@ def install(prog):
             pos += I.char_width(s[i])
         if k == 'str' and not p: return SOME(pos)
         return NONE()
+    @M('<impl str>::rfind')
+    def _(I, a, c):
+        s = I.str_of(a[0]); k, p = pat_pred(I, a[1])
+        for i in range(len(s) - 1, -1, -1):
+            if k == 'char': hit = p(s[i])
+            else: hit = str_eq(s[i:i + len(p)], p) if i + len(p) <= len(s) else False
+            if truthy(I, hit):
+                pos = 0
+                for ch in s[:i]: pos += I.char_width(ch)
+                return SOME(pos)
+        if k == 'str' and not p:
+            pos = 0
+            for ch in s: pos += I.char_width(ch)
+            return SOME(pos)
+        return NONE()
+    @M('<impl str>::rsplitn', '<impl str>::splitn')
+    def _(I, a, c):
+        n = I.concretize(a[1]); s = I.str_of(a[0]); k, p = pat_pred(I, a[2])
+        rev = 'rsplitn' in c
+        seq = list(s)[::-1] if rev else list(s)
+        if k != 'char': raise Unsupported('splitn with str pattern')
+        parts = []; cur = []
+        for idx, ch in enumerate(seq):
+            if len(parts) < n - 1 and truthy(I, p(ch)):
+                parts.append(cur); cur = []
+            else: cur.append(ch)
+        parts.append(cur)
+        if rev: parts = [x[::-1] for x in parts]
+        return ListIter([tuple(x) for x in parts])
     def trim_model(left, right, pred_of=None):
         def f(I, a, c):
             s = I.str_of(a[0])
